@@ -210,6 +210,11 @@ impl<const L: usize> SimEnv for Env<L> {
         crate::real::status_u8(self.order_status(id))
     }
     fn series(&self, _asset: usize) -> Series {
+        if L == 0 {
+            // no level 0: the touch series do not exist (the getters index level 0)
+            let e: Vec<u32> = Vec::new();
+            return series_from(self.get_level_2_data_history(), self.get_trade_vols(), self.get_prices(), self.get_volumes(), (&e, &e), (&e, &e), std::marker::PhantomData::<()>);
+        }
         series_from(self.get_level_2_data_history(), self.get_trade_vols(), self.get_prices(), self.get_volumes(), self.get_touch_volumes(), self.get_touch_order_counts(), std::marker::PhantomData::<()>)
     }
     fn cached_l2(&self, _asset: usize) -> L2 {
@@ -284,6 +289,10 @@ impl<const A: usize, const L: usize> SimEnv for MarketEnv<A, L> {
         crate::real::status_u8(self.order_status((asset, id)))
     }
     fn series(&self, asset: usize) -> Series {
+        if L == 0 {
+            let e: Vec<u32> = Vec::new();
+            return series_from(self.get_level_2_data_history(asset), self.get_trade_vols(asset), self.get_prices(asset), self.get_volumes(asset), (&e, &e), (&e, &e), std::marker::PhantomData::<()>);
+        }
         series_from(
             self.get_level_2_data_history(asset),
             self.get_trade_vols(asset),
@@ -339,15 +348,19 @@ macro_rules! with_env {
             8 => $f::<bourse_de::MarketEnv<2, 10>>($($arg),*),
             9 => $f::<bourse_de::MarketEnv<4, 10>>($($arg),*),
             10 => $f::<bourse_de::MarketEnv<12, 2>>($($arg),*),
-            _ => $f::<bourse_de::MarketEnv<66, 1>>($($arg),*),
+            11 => $f::<bourse_de::MarketEnv<66, 1>>($($arg),*),
+            12 => $f::<bourse_de::Env<0>>($($arg),*),
+            _ => $f::<bourse_de::MarketEnv<2, 0>>($($arg),*),
         }
     };
 }
-pub const N_ENV_TYPES: usize = 12;
-pub const ENV_ASSETS: [usize; N_ENV_TYPES] = [1, 1, 1, 1, 1, 2, 3, 4, 2, 4, 12, 66];
+pub const N_ENV_TYPES: usize = 14;
+pub const ENV_ASSETS: [usize; N_ENV_TYPES] = [1, 1, 1, 1, 1, 2, 3, 4, 2, 4, 12, 66, 1, 2];
+/// environments without level tracking (LEVELS = 0: no per-level series, the touch-volume getters are not available)
+pub const ZERO_LEVEL_ENV_TYPES: [usize; 2] = [12, 13];
 /// wide markets (more assets than levels, more than 10 / 64 assets): used for a small share of the multi-asset sessions
 pub const WIDE_ENV_TYPES: [usize; 2] = [10, 11];
-pub const ENV_IS_MULTI: [bool; N_ENV_TYPES] = [false, false, false, false, true, true, true, true, true, true, true, true];
+pub const ENV_IS_MULTI: [bool; N_ENV_TYPES] = [false, false, false, false, true, true, true, true, true, true, true, true, false, true];
 
 // ------------------------------------------------------------------------------------------------
 // Shadow: plain real order books driven by the harness next to an environment
@@ -892,6 +905,53 @@ impl EnvGenCfg {
                     };
                     out.push(Ins::Modify { asset, id, price, vol });
                 }
+            }
+        }
+        out
+    }
+
+    /// Batch of the resume regime (after a halt that left the book crossed): instructions sized to fill *exactly* - a
+    /// modification to `current volume + volume of the k best admissible opposite orders` (price unchanged, restated or
+    /// moved), so that the order trades and may come out with the volume it had, and new orders sized to the admissible
+    /// opposite volume.
+    pub fn exact_batch<E: SimEnv>(&self, rng: &mut Sm, env: &E, n: usize) -> Vec<Ins> {
+        let mut out = Vec::with_capacity(n);
+        for _ in 0..n {
+            let asset = rng.below(E::ASSETS as u64) as usize;
+            let orders = env.env_orders(asset);
+            let act: Vec<&ROrder> = orders.iter().filter(|o| o.status == ACTIVE).collect();
+            let admissible = |bid: bool, price: u32| -> Vec<u32> {
+                let mut v: Vec<&&ROrder> = act.iter().filter(|o| o.bid != bid && if bid { o.price <= price } else { o.price >= price }).collect();
+                v.sort_by_key(|o| (if bid { o.price as i64 } else { -(o.price as i64) }, o.id));
+                v.iter().map(|o| o.vol).collect()
+            };
+            if !act.is_empty() && rng.chance(0.7) {
+                let o = *rng.pick(&act);
+                let price = match rng.below(3) {
+                    0 => None,
+                    1 => Some(o.price),
+                    _ => Some(self.price(rng, asset)),
+                };
+                let vols = admissible(o.bid, price.unwrap_or(o.price));
+                let k = if vols.is_empty() { 0 } else { rng.range(1, vols.len() as u64) as usize };
+                let extra: u32 = vols[..k].iter().sum();
+                // volumes stay small (valid histories: per-side resting volume far below 2^32 even over thousands of steps)
+                let vol = if extra == 0 && rng.chance(0.5) {
+                    None
+                } else if o.vol as u64 + extra as u64 > 50_000 {
+                    Some(rng.range(1, 80) as u32)
+                } else {
+                    Some(o.vol + extra)
+                };
+                out.push(Ins::Modify { asset, id: o.id, price, vol });
+            } else {
+                let bid = rng.chance(0.5);
+                let p = self.price(rng, asset);
+                let vols = admissible(bid, p);
+                let k = if vols.is_empty() { 0 } else { rng.range(1, vols.len() as u64) as usize };
+                let exact: u32 = vols[..k].iter().sum();
+                let vol = if exact == 0 || exact > 50_000 { rng.range(1, 60) as u32 } else { exact };
+                out.push(Ins::New { asset, bid, vol, trader: rng.below(30) as u32, price: Some(p) });
             }
         }
         out
